@@ -30,7 +30,7 @@ IntV(w, v) == [k |-> "int", w |-> w, v |-> v]
 Vals(ty) ==
   CASE ty.t = "bool" -> <<[k |-> "bool", v |-> TRUE], [k |-> "bool", v |-> FALSE]>>
     [] ty.t \in Ints -> <<IntV(ty.t, "max"), IntV(ty.t, "min")>>
-    [] ty.t = "f64" -> <<[k |-> "f64", v |-> "0.5"], [k |-> "f64", v |-> "-2.25"]>>
+    [] ty.t = "f64" -> <<[k |-> "f64", v |-> "0.5"], [k |-> "f64", v |-> "-2.25"], [k |-> "f64", v |-> "1e19"], [k |-> "f64", v |-> "-0.0"]>>
     [] ty.t = "f32" -> <<[k |-> "f32", v |-> "0.5"]>>
     [] ty.t = "char" -> <<[k |-> "char", v |-> "c1"], [k |-> "char", v |-> "c2"]>>
     [] ty.t = "str" -> <<[k |-> "str", v |-> "s1"], [k |-> "str", v |-> "s0"]>>
